@@ -68,6 +68,59 @@ def task_primitive(which: str, rank: int, dtype: str, timeout: float) -> List[Di
     return discharge("C02", f"scale_{which}[rank={rank},{dtype}]", h_primitive(which, rank, dtype), replay_primitive, timeout)
 
 
+FX_FUNS = {
+    "scale_fwd(2.5)": lambda U, sc: (lambda x: sc.scale_fwd(x, 2.5)), "scale_fwd(-0.75)": lambda U, sc: (lambda x: sc.scale_fwd(x, -0.75)),
+    "scale_fwd(0)": lambda U, sc: (lambda x: sc.scale_fwd(x, 0.0)), "scale_bwd(2.5)": lambda U, sc: (lambda x: sc.scale_bwd(x, 2.5)),
+    "scale_bwd(-3)": lambda U, sc: (lambda x: sc.scale_bwd(x, -3.0)),
+    "gelu(mult=2)": lambda U, sc: (lambda x: U.gelu(x, mult=2.0)), "gelu(tanh,gmean)": lambda U, sc: (lambda x: U.gelu(x, mult=0.5, constraint="gmean", approximate="tanh")),
+    "silu": lambda U, sc: (lambda x: U.silu(x)), "silu(mult=3,None)": lambda U, sc: (lambda x: U.silu(x, mult=3.0, constraint=None)),
+    "dropout(0.2)": lambda U, sc: (lambda x: U.dropout(x, 0.2)),
+    "residual(0.3)": lambda U, sc: (lambda x: U.residual_add(*U.residual_split(x, 0.3), 0.3)),
+    "residual_apply(tanh,2)": lambda U, sc: (lambda x: U.residual_apply(torch.tanh, x, 2.0)),
+}
+
+
+def h_fx(name: str):
+    """auxiliary (the decidable fragment of C20): plain torch.fx symbolic tracing - the Proxy branches of
+    _ScaledGrad.forward - reproduces the forward VALUES of eager execution, for all data and shapes"""
+
+    def h(c: Ctx) -> None:
+        import torch.fx as fx
+        import unit_scaling.functional as U
+        from unit_scaling import scale as sc
+        from ..fxsym.interp import SymInterp
+        from .c06 import _eq_lc
+        f = FX_FUNS[name](U, sc)
+        gm = fx.symbolic_trace(f)  # traced before the session: the library's own Proxy special cases run
+        mk = fo.SymMk(c)
+        with Session():
+            x = mk.tensor("x", fo._lead(mk, 2), torch.float32)
+            out_fx = SymInterp(gm, {"x": x}).run(x)
+            out_eager = f(x)
+            _eq_lc(c, "fx-traced graph reproduces the eager forward value", out_fx.lc, out_eager.lc, {"fx": name, "claim": "fx"})
+
+    return h
+
+
+def replay_fx(obname: str, model: Dict[str, Any], info: Any) -> Tuple[bool, str]:
+    import torch.fx as fx
+    import unit_scaling.functional as U
+    from unit_scaling import scale as sc
+    f = FX_FUNS[info["fx"]](U, sc)
+    gm = fx.symbolic_trace(f)
+    x = torch.randn(3, 4, dtype=torch.float64)
+    torch.manual_seed(0)
+    a = gm(x)
+    torch.manual_seed(0)
+    b = f(x)
+    return not torch.allclose(a, b, rtol=1e-12, atol=0), f"fx.symbolic_trace({info['fx']}): max abs diff {(a - b).abs().max().item():.3g}"
+
+
+def task_fx(name: str) -> List[Dict[str, Any]]:
+    torch.set_num_threads(1)
+    return discharge("C02", f"fx-trace[{name}]", h_fx(name), replay_fx, 20, base_info={"fx": name}, skip_definedness=True)
+
+
 def run(rep: Report, only: str = "") -> None:
     from unit_scaling import scale
     timeout = 120 if rep.tier == "thorough" else 40
@@ -79,11 +132,14 @@ def run(rep: Report, only: str = "") -> None:
         for rank in ((0, 1, 2, 3) if rep.tier == "thorough" else (0, 2)):
             for dt in DTS:
                 tasks.append((task_primitive, (which, rank, dt, timeout)))
+    tasks += [(task_fx, (n,)) for n in FX_FUNS]
     if only:
         tasks = [t for t in tasks if only in repr(t[1])]
     rep.extend(run_tasks(tasks))
     rep.functions = fo.encoded_functions()
     common_meta(rep)
+    rep.bounds["fx"] = ("auxiliary obligation (the only decidable fragment of C20, not claimed as C20): torch.fx.symbolic_trace of scale_fwd/scale_bwd/gelu/silu/dropout/"
+                        "residual ops, interpreted symbolically, reproduces the eager forward value for all data and shapes")
     rep.bounds["primitives"] = "scale_fwd/scale_bwd with a symbolic real factor in [-1000, 1000] (0 and negatives included), ranks 0-3, four dtypes"
     rep.sample({"harness": "linear[rank=2,bias=True,constraint=None,...]", "obligation": "grad[w] = a * reference gradient",
                 "meaning": "the library's weight gradient unifies with a * vjp[linear,1](x,w,b; G) for a free upstream gradient G; a > 0"})
@@ -91,6 +147,8 @@ def run(rep: Report, only: str = "") -> None:
 
 def replay(data: Dict[str, Any]) -> Tuple[bool, str]:
     info = data.get("info") or {}
+    if "fx" in info:
+        return replay_fx(data["obligation"], data["model"], info)
     if "which" in info:
         return replay_primitive(data["obligation"], data["model"], info)
     return fo.replay_functional(data["obligation"], data["model"], info)
